@@ -135,12 +135,13 @@ def case_levinson_allow(h, p, cplx):
         h.claim_eq("normal-eq-row%d" % i, acc, P if i == 0 else 0)
 
 
-def case_toeplitz(h, M, cplx):
+def case_toeplitz(h, M, cplx, zcplx=None):
+    # zcplx: kind of the right-hand side when it differs from the matrix (real matrix with a complex z and vice versa)
     S = sp()
     T0 = h.cplx('Tzero') if cplx else h.real('Tzero')
     TC = h.vec('TC', M, cplx)
     TR = h.vec('TR', M, cplx)
-    Z = h.vec('Z', M + 1, cplx)
+    Z = h.vec('Z', M + 1, cplx if zcplx is None else zcplx)
     try:
         X = S.toeplitz.TOEPLITZ(T0, TC, TR, Z)
     except ValueError:
@@ -160,11 +161,11 @@ def case_toeplitz(h, M, cplx):
         h.claim_eq("Tx=z:row%d" % i, acc, Z[i])
 
 
-def case_hermtoep(h, M, cplx):
+def case_hermtoep(h, M, cplx, zcplx=None):
     S = sp()
     T0 = h.real('Tzero')
     Tv = h.vec('T', M, cplx)
-    Z = h.vec('Z', M + 1, cplx)
+    Z = h.vec('Z', M + 1, cplx if zcplx is None else zcplx)
     try:
         X = S.toeplitz.HERMTOEP(T0, Tv, Z)
     except ValueError:
@@ -234,6 +235,13 @@ def cases(tier, seed):
                             wall=300 if q else 2400))
         if q:
             out.append(Case("HERMTOEP:%s:M=4" % tag, case_hermtoep, dict(M=4, cplx=cplx), timeout=60, wall=300))
+        # mixed kinds: real matrix with a complex right-hand side and complex matrix with a real one (seed C10d)
+        for M in (1, 2):
+            mtag = "%s-matrix:%s-rhs" % (tag, 're' if cplx else 'cx')
+            out.append(Case("TOEPLITZ:%s:M=%d" % (mtag, M), case_toeplitz, dict(M=M, cplx=cplx, zcplx=not cplx),
+                            timeout=60 if q else 300, wall=300 if q else 2400))
+            out.append(Case("HERMTOEP:%s:M=%d" % (mtag, M), case_hermtoep, dict(M=M, cplx=cplx, zcplx=not cplx),
+                            timeout=60 if q else 300, wall=300 if q else 2400))
         for method in ('numpy_solver', 'numpy', 'scipy'):
             for n in range(1, (3 if (not cplx or not q) else 2) + 1):
                 out.append(Case("CHOLESKY:%s:%s:n=%d" % (method, tag, n), case_cholesky, dict(n=n, cplx=cplx, method=method),
